@@ -87,7 +87,12 @@ def par_2(ctx, rep):
                     p = getattr(p, '_parent', None)
                 rep.ob('PAR-2', rel, q, norm(n), guarded,
                        'grammar-table lookup can raise KeyError out of the parser (no enclosing try/except KeyError)')
-    rep.minimum('PAR-2', 6)
+            # non-raising forms of the same lookups: table.get(key), key in table (and a subscript guarded by it)
+            from ..model import xnorm as _xn
+            if isinstance(n, ast.Call) and isinstance(n.func, ast.Attribute) and n.func.attr == 'get' \
+                    and isinstance(n.func.value, ast.Attribute) and n.func.value.attr in tables:
+                rep.ob('PAR-2', rel, qual_of(mod, n), norm(n), True, reason='.get() cannot raise KeyError')
+    rep.minimum('PAR-2', 4)
 
 
 # ---------------------------------------------------------------------------
@@ -243,13 +248,19 @@ def par_5(ctx, rep):
             raise AnalysisError('dfa store not found in CFG of %s' % q)
         node = node[0]
         val = norm(n.value)
+        if isinstance(n.value, ast.Name):
+            # the stored state went through a local: what reaches this store
+            from ..model import reaching_values
+            rv = reaching_values(f.node, n.value)
+            if len(rv) == 1:
+                val = norm(rv[0]).replace(".arcs.get('stmt')", ".arcs['stmt']")
         if q == 'BaseParser._add_token':
             ok = val.endswith('.next_dfa')
             rep.ob('PAR-5', rel, q, norm(n), ok, 'state store in the engine is not a plan application')
         elif f.key in helpers and val.endswith('.next_dfa'):
             ok = only_via(cfg, node, lambda e: norm(e).endswith('next_dfa.is_final'), 'T') and \
                 only_via(cfg, node, lambda e: norm(e).endswith('.dfa_pushes'), 'F') and \
-                guarded_by_eq(cfg, node, 'from_rule', 'simple_stmt')
+                (guarded_by_eq(cfg, node, 'from_rule', 'simple_stmt') or guarded_by_eq(cfg, node, 'nonterminal', 'simple_stmt'))
             rep.ob('PAR-5', rel, q, 'missing-final-newline shortcut: <entry>.dfa = <plan>.next_dfa', ok,
                    'missing-final-newline shortcut is not restricted to simple_stmt / accepting target state / no pushes')
         elif f.key in helpers and "arcs['stmt']" in val:
@@ -315,7 +326,26 @@ def par_6(ctx, rep):
     for n in walk_own(rt.node):
         if isinstance(n, ast.Assign) and norm(n.value) == 'self._omit_dedent_list':
             omit_aliases |= {norm(t) for t in n.targets}
-    nonempty_tests = [n for n in rc.nodes if n.kind == 'test' and norm(n.ast) in omit_aliases]
+    def implies_nonempty(e):
+        # e true  =>  the omit list is non-empty
+        if norm(e) in omit_aliases:
+            return True
+        if isinstance(e, ast.Call) and norm(e.func) == 'bool' and len(e.args) == 1 and norm(e.args[0]) in omit_aliases:
+            return True
+        if isinstance(e, ast.Compare) and len(e.ops) == 1 and isinstance(e.ops[0], (ast.Gt, ast.NotEq)) \
+                and norm(e.left) in {'len(%s)' % a for a in omit_aliases} and norm(e.comparators[0]) == '0':
+            return True
+        if isinstance(e, ast.BoolOp) and isinstance(e.op, ast.And):
+            return any(implies_nonempty(v) for v in e.values)
+        return False
+    flags = set()
+    for n in walk_own(rt.node):
+        if isinstance(n, ast.Assign) and len(n.targets) == 1 and isinstance(n.targets[0], ast.Name) and implies_nonempty(n.value):
+            others = [a for a in walk_own(rt.node) if isinstance(a, ast.Assign) and a is not n
+                      and any(isinstance(t, ast.Name) and t.id == n.targets[0].id for t in a.targets)]
+            if not others:
+                flags.add(n.targets[0].id)
+    nonempty_tests = [n for n in rc.nodes if n.kind == 'test' and (implies_nonempty(n.ast) or norm(n.ast) in flags)]
     removed = {(t, 'T') for t in nonempty_tests}
     # path from loop body entry back to a 'next' node avoiding yields and avoiding T edges of non-empty tests
     bad = None
@@ -765,6 +795,11 @@ def _succ_closure(n):
     return seen
 
 
+def expand_test(fn_node, test):
+    from ..model import expand_aliases
+    return expand_aliases(fn_node, test)
+
+
 def pop_shape(ctx, rep):
     rep.rule('PAR-0', '_pop passes a single child through and otherwise puts every gathered child into one node '
                       'that is appended to the new top of the stack')
@@ -783,7 +818,25 @@ def pop_shape(ctx, rep):
         for n in walk_own(f.node):
             if isinstance(n, ast.Assign) and any(isinstance(t, ast.Name) and t.id == v for t in n.targets):
                 val = n.value
-                if norm(val) == '%s.nodes[0]' % popped:
+                from ..model import xnorm
+                if isinstance(val, ast.IfExp):
+                    # x = A if c else B: both arms, each under its half of the condition
+                    arms = [(val.body, norm(expand_test(f.node, val.test)), True), (val.orelse, norm(expand_test(f.node, val.test)), False)]
+                    eqs = ('len(%s.nodes) == 1' % popped, '1 == len(%s.nodes)' % popped)
+                    nes = ('len(%s.nodes) != 1' % popped, '1 != len(%s.nodes)' % popped)
+                    for arm, test_text, pos in arms:
+                        at = xnorm(f.node, arm)
+                        single_here = (pos and test_text in eqs) or (not pos and test_text in nes)
+                        if at == '%s.nodes[0]' % popped:
+                            if not single_here:
+                                ok, detail = False, 'first child passed through without a test that it is the only child'
+                        elif isinstance(arm, ast.Call) and is_method_call(arm, 'convert_node') \
+                                and xnorm(f.node, arm.args[-1]) == '%s.nodes' % popped:
+                            pass
+                        else:
+                            ok, detail = False, 'new node built from %s instead of all children of the reduced entry' % norm(arm)
+                    continue
+                if xnorm(f.node, val) == '%s.nodes[0]' % popped:
                     # must be under len(popped.nodes) == 1
                     p_ = getattr(n, '_parent', None)
                     eq = ('len(%s.nodes) == 1' % popped, '1 == len(%s.nodes)' % popped)
@@ -793,7 +846,7 @@ def pop_shape(ctx, rep):
                     if not good:
                         ok, detail = False, 'first child passed through without a test that it is the only child'
                 elif isinstance(val, ast.Call) and is_method_call(val, 'convert_node') \
-                        and norm(val.args[-1]) == '%s.nodes' % popped:
+                        and xnorm(f.node, val.args[-1]) == '%s.nodes' % popped:
                     pass
                 else:
                     ok, detail = False, 'new node built from %s instead of all children of the reduced entry' % norm(val)
@@ -807,8 +860,19 @@ def par_10(ctx, rep):
     f = ctx.prog.func(PY, 'Parser.error_recovery')
     cs = f.nested.get('current_suite')
     if cs is None:
-        # the search may have been inlined / renamed: look for the loop over enumerate(stack) in error_recovery itself
+        # the search may have been inlined, renamed or moved out: the function whose result becomes the index the stack is
+        # cut at (the argument of _stack_removal), else error_recovery itself
         cs = f
+        cut_names = set()
+        for n in walk_own(f.node):
+            if isinstance(n, ast.Call) and is_method_call(n, '_stack_removal') and n.args:
+                cut_names |= {x.id for x in ast.walk(n.args[0]) if isinstance(x, ast.Name)}
+        for n in walk_own(f.node):
+            if isinstance(n, ast.Assign) and any(isinstance(t, ast.Name) and t.id in cut_names for t in n.targets) \
+                    and isinstance(n.value, ast.Call):
+                targets, _how = ctx.cg.resolve_call(f, n.value)
+                if len(targets) == 1:
+                    cs = targets[0]
     cfg = ctx.cfg(cs)
     breaks = [n for n in cfg.nodes if n.kind == 'stmt' and isinstance(n.ast, ast.Break)]
     if not breaks:
